@@ -82,6 +82,9 @@ inductive Beh
   /-- a response was queued from outside the handler while the connection was suspended (`Op.extQueue`):
       the handler is not called again (call_connection_handler returns at once), the reply runs -/
   | sent
+  /-- like `reply r false pre` with an 'upgrade' response `r`, and the application finishes the upgraded
+      session synchronously: it calls MHD_upgrade_action(CLOSE) inside its upgrade handler -/
+  | upgradeClose (r : Nat) (pre : List Nat)
   deriving Repr, DecidableEq
 
 structure Conn where
@@ -103,6 +106,8 @@ structure Conn where
   clientClosed : Bool := false
   /-- environment: the client does not read -/
   nodrain : Bool := false
+  /-- application script: the upgrade handler of this connection closes the session before it returns -/
+  inClose : Bool := false
   /-- environment + application script: request waiting to be handled -/
   req : Option Beh := none
   deriving Repr, DecidableEq
@@ -349,9 +354,13 @@ def runReply (R1 : RespTab) (c1 : Conn) (r : Nat) (cl : Bool) : RespTab × Conn 
     let q := closeConn R1 c1
     (q.1, q.2.1, .clean, q.2.2)
   else if isUpg R1 r then
-    -- 101 sent, MHD_response_execute_upgrade_: suspended with urh, response given back
+    -- 101 sent, MHD_response_execute_upgrade_: suspended with urh (before the application's upgrade handler
+    -- runs), response given back.  If the handler itself calls MHD_upgrade_action(CLOSE), the connection is
+    -- marked closed and resuming while suspended: the next resume_suspended_connections moves it to the
+    -- cleanup list — within the settled round: disposition `clean`.
     let q := closeConn R1 c1
-    (q.1, { q.2.1 with urh := true }, .susp, [.upgraded c1.id] ++ q.2.2)
+    (q.1, { q.2.1 with urh := true, wasClosed := q.2.1.wasClosed || c1.inClose },
+     if c1.inClose then .clean else .susp, [.upgraded c1.id] ++ q.2.2)
   else if isBig R1 r && c1.nodrain then
     (R1, { c1 with held := true, closeAfter := cl }, .keep, [])
   else
@@ -409,6 +418,7 @@ def handleReq (cfg : Cfg) (R : RespTab) (c : Conn) : RespTab × Conn × Disp × 
     else ({ R with fault := some .suspendNotAllowed }, c, .keep, [.panic .suspendNotAllowed])
   | some (.reply r cl pre) => replyPre cfg R c r cl pre
   | some .bad => (R, { c with req := none }, .clean, [])
+  | some (.upgradeClose r pre) => replyPre cfg R { c with inClose := true } r false pre
   | some .sent =>
     match c.resp with
     | some r => runReply R { c with req := none } r true
